@@ -92,36 +92,68 @@ impl Ty {
     }
 }
 
-/// A value inside the documented range.
+/// A valid value of `ty` (raw count): range ends, unit boundaries, small
+/// field values (day 31/32/33 of an interval, month 0 ..), log-uniform
+/// magnitudes and uniform draws.
 pub fn draw_value(rng: &mut Rng, ty: Ty) -> i64 {
     let (lo, hi) = (ty.lo(), ty.hi());
-    let v = match rng.below(10) {
+    const DAY: i64 = 86_400_000_000;
+    let v = match rng.below(12) {
         0 => lo,
         1 => hi,
         2 => *rng.pick(&[0i64, 1, -1, lo + 1, hi - 1]),
         3 => {
-            // calendar / unit boundaries
             let unit = match ty {
-                Ty::Date => 1,
+                Ty::Date => *rng.pick(&[1i64, 7, 365, 36_524]),
                 Ty::IntervalYM => 12,
-                _ => *rng.pick(&[1_000_000i64, 60_000_000, 3_600_000_000, USECS_PER_DAY]),
+                _ => *rng.pick(&[1_000_000i64, 60_000_000, 3_600_000_000, DAY, 31_536_000_000_000]),
             };
             let k = rng.range_i64(lo / unit, hi / unit);
-            k * unit + *rng.pick(&[-1i64, 0, 1])
+            k.saturating_mul(unit).saturating_add(*rng.pick(&[-1i64, 0, 1]))
         }
-        4 => {
-            // near the epoch and year boundaries
+        4 | 5 => {
+            // small field values
+            let sign = if rng.bool() { 1 } else { -1 };
             match ty {
-                Ty::Date => days_from_civil(rng.range_i64(1, 9999), 12, 31) + rng.range_i64(0, 1),
-                Ty::Timestamp | Ty::Oracle => {
-                    (days_from_civil(rng.range_i64(1, 9999), 12, 31) + 1) * USECS_PER_DAY + rng.range_i64(-2_000_000, 2_000_000)
+                Ty::IntervalDT => {
+                    let d = *rng.pick(&[0i64, 1, 9, 10, 28, 29, 30, 31, 32, 33, 34, 99, 100, 365, 366, 999, 1000, 99_999_999]);
+                    sign * (d * DAY + rng.range_i64(0, DAY - 1) * rng.below(2) as i64)
                 }
-                _ => rng.range_i64(-3, 3),
+                Ty::IntervalYM => {
+                    let y = *rng.pick(&[0i64, 1, 9, 10, 99, 100, 999, 1000, 9999, 10_000, 177_999_999]);
+                    sign * (y * 12 + rng.range_i64(0, 11))
+                }
+                Ty::Time => *rng.pick(&[0i64, 1, 999_999, 1_000_000, 59_999_999, 60_000_000, 3_599_999_999, 3_600_000_000, 43_199_999_999, 43_200_000_000, 86_399_000_000]),
+                Ty::Date | Ty::Timestamp | Ty::Oracle => {
+                    // calendar corner days: month ends, leap days, year ends, first/last years
+                    let y = *rng.pick(&[1i64, 2, 4, 100, 400, 1582, 1900, 1970, 1999, 2000, 2024, 2100, 9996, 9998, 9999]);
+                    let (m, d) = *rng.pick(&[(1u32, 1u32), (1, 31), (2, 28), (2, 29), (3, 1), (4, 30), (6, 30), (7, 1), (12, 30), (12, 31), (10, 15), (11, 16)]);
+                    let d = d.min(simcore::civil::days_in_month(y, m));
+                    let days = simcore::civil::days_from_civil(y, m, d);
+                    if ty == Ty::Date {
+                        days
+                    } else {
+                        days * DAY + *rng.pick(&[0i64, 1, 43_199_999_999, 43_200_000_000, 86_399_999_999, 1_800_000_000, 82_800_000_000])
+                    }
+                }
+            }
+        }
+        6 | 7 => {
+            // log-uniform magnitude
+            let max_mag = hi.unsigned_abs().max(lo.unsigned_abs());
+            let bits = 64 - max_mag.leading_zeros() as u64;
+            let e = rng.below(bits.max(1));
+            let mag = (1u64 << e) + rng.below(1u64 << e);
+            let v = mag.min(i64::MAX as u64) as i64;
+            if rng.bool() {
+                v
+            } else {
+                -v
             }
         }
         _ => rng.range_i64(lo, hi),
-    };
-    let v = v.clamp(lo, hi);
+    }
+    .clamp(lo, hi);
     if ty == Ty::Oracle {
         (v.div_euclid(1_000_000) * 1_000_000).clamp(lo, hi)
     } else {
